@@ -220,3 +220,28 @@ Definition nested_block (hbt : irow * (list (list raw) * list raw)) : list raw :
   lit_row KBeginBlock (i_id (fst hbt)) (i_text (fst hbt)) :: concat (fst (snd hbt)) ++ end_row :: snd (snd hbt).
 
 End Vocabulary.
+
+(* ---------------------------------------------------------------- textual substitution (for the law ds_body_substituted) *)
+(* textual substitution of one variable *)
+Definition sub_seg (x v : str) (s : seg) : seg :=
+  match s with Ref y => if str_eqb y x then Lit v else s | Lit _ => s end.
+Definition sub_inc (x v : str) (i : incl) : incl :=
+  match i with
+  | IncRef y => if str_eqb y x then (if str_eqb (lower (strip v)) s_false then IncFalse else IncTrue) else i
+  | _ => i
+  end.
+Definition sub_iter (x v : str) (it : iterspec) : iterspec :=
+  match it with IRef y => if str_eqb y x then ILit [v] else it | _ => it end.
+Definition sub_row (x v : str) (r : raw) : raw :=
+  mkRaw (rw_kind r) (sub_inc x v (rw_inc r)) (map (sub_seg x v) (rw_id r)) (map (sub_seg x v) (rw_text r))
+        (rw_vars r) (sub_iter x v (rw_iter r)).
+
+Definition agree_except (x : str) (c1 c2 : ctx) : Prop := forall y, y <> x -> cget c1 y = cget c2 y.
+Definition no_rebind (x : str) (r : raw) : Prop := ~ In x (rw_vars r).
+Definition map_rem (g : list raw -> list raw) (r : res (list raw * list raw)) : res (list raw * list raw) :=
+  match r with ROk (o, rem) => ROk (o, g rem) | RErr e => RErr e end.
+
+(* both loop variables: the index variable first (it is bound last, so it wins when the two names coincide) *)
+Definition subst_loop (x : str) (idx : option str) (e : str) (n : nat) (rows : list raw) : list raw :=
+  map (sub_row x e) (match idx with Some i => map (sub_row i (enc_dec n)) rows | None => rows end).
+
